@@ -84,6 +84,13 @@ def work(shard, res, tier, seed):
             a, b = oracle.rfrags(rx), oracle.rfrags(out)
             if oracle.in_domain_rsmi(rx) and (b is None or a != b):
                 res.viol("molecule_changed_by_map_removal", case={"smiles": rx}, output=out, where="corpus_rx")
+        # very long strings: several mapped sides joined into one mixture (hundreds of map numbers)
+        sides = [x for rx in shard["rx"] for x in rx.split(">>") if x]
+        for k in range(0, min(len(sides), 120), 12):
+            big = ".".join(sides[k:k + 12])
+            check_one(big, res, fn, "long_mixture")
+            res.count("max_maps_in_one_string", 0)
+            res.counters["max_maps_in_one_string"] = max(res.counters["max_maps_in_one_string"], big.count(":"))
         res.sample({"in": shard["rx"][0][:120], "out": fn(shard["rx"][0])[:120]})
     if "brackets" in shard:
         forms = molgen.bracket_forms(rng, shard["brackets"]["n"])
@@ -134,4 +141,4 @@ def work(shard, res, tier, seed):
 
 def conclude_args(res, tier, seed):
     return {"need": {"evaluated:corpus": 500, "evaluated:brackets": 1000, "evaluated:respell": 500,
-                     "pipeline_cells": 50, "evaluated:explicit_aromatic_bonds": 5}, "min_cases": 500}
+                     "pipeline_cells": 50, "evaluated:explicit_aromatic_bonds": 5, "evaluated:long_mixture": 10}, "min_cases": 500}
